@@ -58,6 +58,17 @@ def core_of(dump):
         else:
             body = it["ty"]
         core[(it["kind"], it["name"])] = (tuple(map(str, attrs)), body)
+    # the code that decides wire behaviour: response parsers of request structs and every trait impl (IntoResponse,
+    # TryFrom<&..Header>, Display / FromStr, Serialize / Deserialize written by hand); builder `new` methods and helper
+    # constructors are decorations and stay out
+    for it in dump.get("items", []):
+        if it["kind"] != "impl":
+            continue
+        for m in it.get("methods", []):
+            if it.get("trait") or m["name"] == "parse_response":
+                # (a trailing comma before a closing delimiter follows line wrapping, i.e. the length of the visibility keyword)
+                lay = lambda t: re.sub(r",\s*([)\]}])", r"\1", t or "")
+                core[("impl", it["self_ty"], it.get("trait") or "", m["name"])] = (lay(m.get("sig")), lay(m.get("body")))
     return core
 
 
@@ -113,6 +124,23 @@ def main(tier, seed, replay=None):
                        "headers": {"X-Comp": {"schema": {"type": "string"}}},
                        "schemas": {"Cfg": {"type": "object", "required": ["kind"], "properties": {"kind": {"const": "cfg"}, "level": {"type": "integer", "default": 3},
                                                                                                "name": {"type": "string", "default": "n"}, "mode": {"type": "string", "enum": ["only"]}}}}}}))
+    # operations with identical response sets (their response enums are merged) and request parameters, a discriminated
+    # union with helper-eligible variants next to an untagged one, members named like builder methods
+    R_ = lambda t: {"$ref": f"#/components/schemas/{t}"}
+    both = lambda sch: {"200": {"description": "ok", "content": {"application/json": {"schema": sch}}}, "404": {"description": "nf", "content": {"application/json": {"schema": R_("Problem")}}}}
+    pid = [{"name": "id", "in": "path", "required": True, "schema": {"type": "string"}}]
+    corpus.append(("merged", {
+        "openapi": "3.1.0", "info": {"title": "m", "version": "1"},
+        "paths": {"/cats/{id}": {"get": {"operationId": "get_cat", "parameters": pid, "responses": both(R_("Animal"))}},
+                  "/dogs/{id}": {"get": {"operationId": "get_dog", "parameters": pid, "responses": both(R_("Animal"))}},
+                  "/shapes": {"post": {"operationId": "make_shape", "requestBody": {"required": True, "content": {"application/json": {"schema": R_("Shape")}}}, "responses": both(R_("Label"))}}},
+        "components": {"schemas": {
+            "Animal": {"type": "object", "properties": {"name": {"type": "string"}, "build": {"type": "string"}, "builder": {"type": "integer"}}},
+            "Problem": {"type": "object", "properties": {"detail": {"type": "string"}}},
+            "Circle": {"type": "object", "required": ["kind"], "properties": {"kind": {"const": "circle"}, "r": {"type": "number"}}},
+            "Square": {"type": "object", "required": ["kind"], "properties": {"kind": {"const": "square"}, "side": {"type": "number"}}},
+            "Shape": {"oneOf": [R_("Circle"), R_("Square")], "discriminator": {"propertyName": "kind", "mapping": {"circle": "#/components/schemas/Circle", "square": "#/components/schemas/Square"}}},
+            "Label": {"oneOf": [R_("Circle"), {"type": "string"}]}}}}))
     if replay:
         r = json.load(open(replay))
         corpus = [("replay", r["spec"])]
